@@ -1,0 +1,150 @@
+//go:build verif
+
+package packet
+
+import (
+	"net"
+	"net/netip"
+)
+
+// Contracts of the session's own send paths (C07): every frame handed to the connection is a
+// complete frame of the intended protocol, carries the requested addresses and is sourced
+// from the host NIC MAC.
+
+// VerifSpecARPFrame: b is a complete Ethernet/ARP frame with the given fields.
+func VerifSpecARPFrame(b []byte, op uint16, ethSrc, ethDst net.HardwareAddr, sender, target Addr) bool {
+	return len(b) == 42 &&
+		b[0] == ethDst[0] && b[1] == ethDst[1] && b[2] == ethDst[2] && b[3] == ethDst[3] && b[4] == ethDst[4] && b[5] == ethDst[5] &&
+		b[6] == ethSrc[0] && b[7] == ethSrc[1] && b[8] == ethSrc[2] && b[9] == ethSrc[3] && b[10] == ethSrc[4] && b[11] == ethSrc[5] &&
+		b[12] == 0x08 && b[13] == 0x06 &&
+		b[14] == 0 && b[15] == 1 && b[16] == 0x08 && b[17] == 0 && b[18] == 6 && b[19] == 4 &&
+		b[20] == byte(op>>8) && b[21] == byte(op) &&
+		b[22] == sender.MAC[0] && b[23] == sender.MAC[1] && b[24] == sender.MAC[2] && b[25] == sender.MAC[3] && b[26] == sender.MAC[4] && b[27] == sender.MAC[5] &&
+		sender.IP.As4() == [4]byte{b[28], b[29], b[30], b[31]} &&
+		b[32] == target.MAC[0] && b[33] == target.MAC[1] && b[34] == target.MAC[2] && b[35] == target.MAC[3] && b[36] == target.MAC[4] && b[37] == target.MAC[5] &&
+		target.IP.As4() == [4]byte{b[38], b[39], b[40], b[41]}
+}
+
+// arpRequest (the probe sent when a host goes silent): exactly one well-formed ARP request.
+//
+//verif:props C07
+func verif_contract_Session_arpRequest(h *Session, dst net.HardwareAddr, sender Addr, target Addr) error {
+	vRequires(VerifSpecSessionOK(h) && len(dst) == 6 && len(sender.MAC) == 6 && len(target.MAC) == 6 && sender.IP.Is4() && target.IP.Is4())
+	vCanary()
+	n0 := vWireCount()
+	vModifiesWire()
+	err := h.arpRequest(dst, sender, target)
+	vEnsures(vWireCount() == n0+1)
+	vEnsures(VerifSpecARPFrame(vWireLast(), 1, h.NICInfo.HostAddr4.MAC, dst, sender, target))
+	return err
+}
+
+// icmp4SendPacket: Ethernet from the host NIC MAC, a 20-byte IPv4 header whose checksum
+// verifies, protocol 1, the requested addresses, and the ICMP message with its checksum set.
+//
+//verif:props C07
+//verif:timeout 120s
+func verif_contract_Session_icmp4SendPacket(h *Session, srcAddr Addr, dstAddr Addr, p ICMP) error {
+	vReveal() // the byte swap between Checksum's result and the stored big-endian field
+	vRequires(VerifSpecSessionOK(h) && len(dstAddr.MAC) == 6 && srcAddr.IP.Is4() && dstAddr.IP.Is4())
+	vRequires(p != nil && 8 <= len(p) && len(p) <= 1400)
+	// the message is not stored inside the address arguments (its checksum field is written in place)
+	vRequires(spec_disjoint(p, dstAddr.MAC) && spec_disjoint(p, h.NICInfo.HostAddr4.MAC))
+	vCanary()
+	n0 := vWireCount()
+	vModifiesWire()
+	vModifiesBytes(p[2:4]) // the checksum field of the caller's message is written in place
+	zeroSum := p[2] == 0 && p[3] == 0
+	c0 := spec_rfc1071(p)
+	err := h.icmp4SendPacket(srcAddr, dstAddr, p)
+	if err == nil {
+		vEnsures(vWireCount() == n0+1)
+		w := vWireLast()
+		vEnsures(len(w) == 34+len(p))
+		vEnsures(spec_be16(w, 12) == 0x0800 && w[14] == 0x45 && w[23] == 1 && int(spec_be16(w, 16)) == 20+len(p))
+		vEnsures(w[6] == h.NICInfo.HostAddr4.MAC[0] && w[7] == h.NICInfo.HostAddr4.MAC[1] && w[8] == h.NICInfo.HostAddr4.MAC[2] &&
+			w[9] == h.NICInfo.HostAddr4.MAC[3] && w[10] == h.NICInfo.HostAddr4.MAC[4] && w[11] == h.NICInfo.HostAddr4.MAC[5])
+		vEnsures(w[0] == dstAddr.MAC[0] && w[1] == dstAddr.MAC[1] && w[2] == dstAddr.MAC[2] && w[3] == dstAddr.MAC[3] && w[4] == dstAddr.MAC[4] && w[5] == dstAddr.MAC[5])
+		vEnsures(spec_ip4_at(w, 26) == srcAddr.IP && spec_ip4_at(w, 30) == dstAddr.IP)
+		// IPv4 header checksum verifies (RFC 791: complement of the sum of the other header words)
+		vEnsures(spec_be16(w, 24) == ^spec_opq_fold(spec_hdrsum0(w[14:34])))
+		// ICMP checksum: the RFC 1071 checksum of the message computed with a zero checksum field
+		if zeroSum {
+			vEnsures(spec_be16(w, 36) == c0)
+		}
+		vEnsures(w[34] == p[0] && w[35] == p[1])
+		vEnsures(vForall(4, len(p), func(i int) bool { return w[34+i] == p[i] }))
+	} else {
+		vEnsures(vWireCount() == n0 || vWireCount() == n0+1)
+	}
+	return err
+}
+
+// ICMP4SendEchoRequest: rejects non-IPv4 addresses without sending; otherwise one echo request
+// (type 8, code 0) with the requested identifier and sequence number.
+//
+//verif:props C07 C19
+//verif:timeout 60s
+func verif_contract_Session_ICMP4SendEchoRequest(h *Session, srcAddr Addr, dstAddr Addr, id uint16, seq uint16) error {
+	vRequires(VerifSpecSessionOK(h) && len(dstAddr.MAC) == 6)
+	vCanary()
+	n0 := vWireCount()
+	vModifiesWire()
+	err := h.ICMP4SendEchoRequest(srcAddr, dstAddr, id, seq)
+	if !srcAddr.IP.Is4() || !dstAddr.IP.Is4() {
+		vEnsures(err == ErrInvalidIP && vWireCount() == n0)
+	} else if err == nil {
+		vEnsures(vWireCount() == n0+1)
+		w := vWireLast()
+		vEnsures(len(w) == 34+8+15 && spec_be16(w, 12) == 0x0800 && w[23] == 1)
+		vEnsures(w[34] == 8 && w[35] == 0 && spec_be16(w, 38) == id && spec_be16(w, 40) == seq)
+		vEnsures(spec_ip4_at(w, 26) == srcAddr.IP && spec_ip4_at(w, 30) == dstAddr.IP)
+		vEnsures(w[6] == h.NICInfo.HostAddr4.MAC[0] && w[7] == h.NICInfo.HostAddr4.MAC[1] && w[8] == h.NICInfo.HostAddr4.MAC[2] &&
+			w[9] == h.NICInfo.HostAddr4.MAC[3] && w[10] == h.NICInfo.HostAddr4.MAC[4] && w[11] == h.NICInfo.HostAddr4.MAC[5])
+	}
+	return err
+}
+
+// ICMP6SendEchoRequest: rejects non-IPv6 addresses without sending; otherwise one echo request
+// (type 128, code 0) with the requested identifier and sequence number.
+//
+//verif:props C07 C19
+//verif:timeout 60s
+func verif_contract_Session_ICMP6SendEchoRequest(h *Session, srcAddr Addr, dstAddr Addr, id uint16, seq uint16) error {
+	vRequires(VerifSpecSessionOK(h) && len(dstAddr.MAC) == 6)
+	vCanary()
+	n0 := vWireCount()
+	vModifiesWire()
+	err := h.ICMP6SendEchoRequest(srcAddr, dstAddr, id, seq)
+	if !srcAddr.IP.Is6() || !dstAddr.IP.Is6() {
+		vEnsures(err == ErrInvalidIP && vWireCount() == n0)
+	} else {
+		vEnsures(vWireCount() == n0+1)
+		w := vWireLast()
+		vEnsures(len(w) == 54+8+15 && spec_be16(w, 12) == 0x86dd && w[20] == 58)
+		vEnsures(w[54] == 128 && w[55] == 0 && spec_be16(w, 58) == id && spec_be16(w, 60) == seq)
+		vEnsures(spec_ip6_at(w, 22) == srcAddr.IP && spec_ip6_at(w, 38) == dstAddr.IP)
+		vEnsures(w[6] == h.NICInfo.HostAddr4.MAC[0] && w[11] == h.NICInfo.HostAddr4.MAC[5])
+	}
+	return err
+}
+
+// spec_mcast6_mac: RFC 2464 section 7: an IPv6 multicast destination maps to 33:33 followed by
+// the last four bytes of the address.
+func spec_mcast6_mac(a Addr) bool {
+	ip := a.IP.As16()
+	return a.IP.Is6() && ip[0] == 0xff && len(a.MAC) == 6 && a.MAC[0] == 0x33 && a.MAC[1] == 0x33 &&
+		a.MAC[2] == ip[12] && a.MAC[3] == ip[13] && a.MAC[4] == ip[14] && a.MAC[5] == ip[15]
+}
+
+// The package's IPv6 multicast destinations: all-nodes is ff02::1, all-routers is ff02::2
+// (RFC 4291 2.7.1), each paired with the matching 33:33 MAC.
+//
+//verif:props C07
+func verif_lemma_multicast_constants() {
+	vCanary()
+	vAssert(IP6AllNodesMulticast == netip.AddrFrom16([16]byte{0xff, 0x02, 0, 0, 0, 0, 0, 0, 0, 0, 0, 0, 0, 0, 0, 0x01}))
+	vAssert(IP6AllRoutersMulticast == netip.AddrFrom16([16]byte{0xff, 0x02, 0, 0, 0, 0, 0, 0, 0, 0, 0, 0, 0, 0, 0, 0x02}))
+	vAssert(spec_mcast6_mac(IP6AllNodesAddr))
+	vAssert(spec_mcast6_mac(IP6AllRoutersAddr))
+}
